@@ -49,8 +49,11 @@ def _events(args):
             continue
         located = rnd.random() < 0.85
         bare = E.make_loc(blocks, st)
-        cur = Sequence(data, Alphabet[alpha], parent=Parent(id="root", location=bare, sequence=rootseq)
-                       if located else None)
+        try:
+            cur = Sequence(data, Alphabet[alpha], parent=Parent(id="root", location=bare, sequence=rootseq)
+                           if located else None)
+        except Exception:
+            continue  # the extracted characters do not fit their own location: the "ext" event above says so
         pool = [cur]
         taint = {id(cur): _self_overlaps(blocks)}   # lineage: some ancestor sat on a self-overlapping location
         if G >= 20 and located and rnd.random() < 0.4:
